@@ -4,7 +4,7 @@
 Require Import ZArith List Bool.
 Require Import IW.Lib.CInt IW.UT.Conv IW.JSON.Val IW.JSON.Patch IW.JSON.PatchSpec IW.JSON.Patch_proofs IW.Gen.Facts.
 Require Import IW.JSON.Binn IW.JSON.Merge IW.JSON.WriteBack IW.JSON.WriteBack_proofs IW.JSON.PatchExt_proofs IW.JSON.PatchDecode_proofs
-               IW.JSON.PatchId IW.JSON.PatchId_proofs IW.JSON.PatchIdTree_proofs.
+               IW.JSON.PatchId IW.JSON.PatchId_proofs IW.JSON.PatchIdTree_proofs IW.JSON.PatchIdPar_proofs.
 Import ListNotations. Local Open Scope Z_scope.
 
 (* trees built by jbn_from_json / _jbl_node_from_binn (`of_val`) satisfy "cached index = position, cached key length =
@@ -643,3 +643,44 @@ Proof.
   - vm_compute. repeat (constructor; [cbn [In]; intuition discriminate|]). constructor.
   - vm_compute. intros x H. repeat (destruct H as [H|H]; [subst x; reflexivity|]). contradiction.
 Qed.
+
+(* with the repaired copy (reparent = true) "every child's parent field is the node that lists it" is an invariant: every document,
+   every list of operations of any kind whose operand values are consistent trees (parsed patch documents are), after the call -
+   successful or not *)
+Theorem C15_parent_pointers_with_fix : forall fo l next t, i_parents_ok t = true -> Forall val_pok l ->
+  i_parents_ok (snd (snd (i_apply_ops true fo next t l))) = true.
+Proof. exact apply_ops_pok. Qed.
+Print Assumptions C15_parent_pointers_with_fix.
+
+(* numbered trees (what the parsers build) are consistent *)
+Example C15_ex_numbered_tree_consistent :
+  let t := snd (i_of_node 0 0 (of_val 0 [] (JObj [([97], JObj [([120], JArr [JI64 1; JI64 2])])]))) in
+  i_parents_ok t = true /\ val_pok {| ip_op := OAdd; ip_path := [[97]]; ip_from := None;
+                                      ip_val := Some (snd (i_of_node 1000 0 (ex_vnode (JObj [([107], JArr [JI64 7])])))) |}.
+Proof. cbv zeta. split; [reflexivity|]. intros v H. inversion H. reflexivity. Qed.
+
+(* the documented meaning of swap and add_create, and that the library's complete reading (lib_op, to which the model is exact:
+   C15_patch_any_op_exact) contains it:
+   "Swap values of two nodes" - both locations exist (rfc6901 pointers) and neither contains the other: the library's result is the
+   document in which the two values have changed places, and the two positions read each other's old value afterwards;
+   "Create intermediate object nodes for missing path segments" - along object members: missing members become objects, then add *)
+Theorem C15_swap_documented : forall dv f path r, ext_swap strict dv f path = Some r ->
+  lib_swap lenient dv f path = Some r /\
+  exists pf pc a b, jlocate strict dv f = Some pf /\ jlocate strict dv path = Some pc /\ jget_at dv pf = Some a /\ jget_at dv pc = Some b /\
+                    jget_at r pf = Some b /\ jget_at r pc = Some a.
+Proof. intros dv f path r H. split; [apply swap_documented; exact H | apply (swap_reads_back strict); exact H]. Qed.
+Print Assumptions C15_swap_documented.
+
+Theorem C15_add_create_documented : forall p v x r, ext_add_create lenient v p x = Some r -> lib_add_create lenient v p x = Some r.
+Proof. exact add_create_documented. Qed.
+Print Assumptions C15_add_create_documented.
+
+(* {"a":{"x":1},"arr":[5,{"y":2}]}: swap /a/x <-> /arr/1/y exchanges 1 and 2; add_create /a/p/q/r [1] creates p and q *)
+Example C15_ex_extensions_documented :
+  let dv := JObj [([97], JObj [([120], JI64 1)]); ([97;114;114], JArr [JI64 5; JObj [([121], JI64 2)]])] in
+  ext_swap strict dv [[97]; [120]] [[97;114;114]; [49]; [121]] =
+    Some (JObj [([97], JObj [([120], JI64 2)]); ([97;114;114], JArr [JI64 5; JObj [([121], JI64 1)]])]) /\
+  ext_add_create lenient dv [[97]; [112]; [113]; [114]] (JArr [JI64 1]) =
+    Some (JObj [([97], JObj [([120], JI64 1); ([112], JObj [([113], JObj [([114], JArr [JI64 1])])])]);
+                ([97;114;114], JArr [JI64 5; JObj [([121], JI64 2)]])]).
+Proof. cbv zeta. split; reflexivity. Qed.
